@@ -129,6 +129,9 @@ def check(pm: ProgramModel, ctx: Ctx) -> None:
     cd.report("VOC", "stress-shapes", cd.roundtrip(ctc_model(mb, stress_trees(mb))),
               "constraint shapes that stress normal forms", ("constraint", "constraint-count"))
     cd.large(mb, BINARY_LOGICAL, mixed=False)
+    cd.polarity(mb, BINARY_LOGICAL, "VOC")
+    cd.writer_reuse(mb, abstract=False)
+    cd.reader_reuse(mb, abstract=False)
     from ..interact import Fragment, sweep
     fr = Fragment(names=dict(NAME_CLASSES), ops=tuple(BINARY_LOGICAL), abstract=False)
     ctx.analysed.update({f"C08:pairwise-{k_}": v for k_, v in sweep(
